@@ -7,16 +7,22 @@ export GOFLAGS=-mod=mod GOPROXY=off GOSUMDB=off GOTOOLCHAIN=local GOWORK=off
 cd /verif
 props=$(python3 -c "import json;print(' '.join(c['property_id'] for c in json.load(open('/verif/MANIFEST.json'))['checks']))")
 ids=${*:-$(ls /verif/seeded | grep -v RESULTS)}
+# snapshot of the checker binary and of /repo's HEAD: the run is not disturbed when either changes meanwhile
+vchk=/tmp/seedrun-verifchk-$$
+cp /verif/bin/verifchk $vchk
+base=/tmp/seedrun-base-$$
+rm -rf $base; mkdir -p $base
+git -C /repo archive HEAD | tar -x -C $base --exclude='testdata' --exclude='docs' --exclude='playground' 2>/dev/null
+trap 'rm -rf $base $vchk' EXIT
 for id in $ids; do
   d=/verif/seeded/$id
   [ -f $d/patch.diff ] || continue
   tmp=/tmp/seedrun-$id-$$
-  rm -rf $tmp; mkdir -p $tmp
-  git -C /repo archive HEAD | tar -x -C $tmp --exclude='testdata' --exclude='docs' --exclude='playground' 2>/dev/null
+  rm -rf $tmp; cp -r $base $tmp
   if ! (cd $tmp && git apply --whitespace=nowarn $d/patch.diff 2>/dev/null); then
     if ! (cd $tmp && patch -p1 -s < $d/patch.diff >/dev/null 2>&1); then echo "$id: patch does not apply"; rm -rf $tmp; continue; fi
   fi
-  res=$(echo $props | tr ' ' '\n' | xargs -P 10 -I{} sh -c "out=\$(/verif/bin/verifchk -prop {} -repo $tmp -verif /verif -nofixture -noevidence 2>&1); if echo \"\$out\" | grep -q '^VIOLATION'; then rules=\$(echo \"\$out\" | grep -B1 '^VIOLATION' | grep -v '^VIOLATION\|^--' | awk '{print \$1}' | sort -u | tr '\n' ','); echo \"{}[\$rules]\"; fi" | sort | tr '\n' ' ')
+  res=$(echo $props | tr ' ' '\n' | xargs -P 10 -I{} sh -c "out=\$($vchk -prop {} -repo $tmp -verif /verif -nofixture -noevidence 2>&1); if echo \"\$out\" | grep -q '^VIOLATION'; then rules=\$(echo \"\$out\" | grep -B1 '^VIOLATION' | grep -v '^VIOLATION\|^--' | awk '{print \$1}' | sort -u | tr '\n' ','); echo \"{}[\$rules]\"; fi" | sort | tr '\n' ' ')
   rm -rf $tmp
   own=${id%%-*}
   if echo "$res" | grep -q "$own\["; then st="CAUGHT-BY-OWN"; elif [ -n "$res" ]; then st="CAUGHT-BY-OTHER"; else st="MISSED"; fi
